@@ -52,32 +52,74 @@ let kv sk k v first =
 let word sk w = if sk.text then Buffer.add_string sk.b w; String.iter (fun c -> num sk (Char.code c)) w
 let new_sink text = { text; b = Buffer.create 64; h = 0 }
 
-(* returns (valid, note) *)
-let run_lru ops sk =
-  let valid = lvalid [] ops in
-  let (s, outs) = lrun lru_init ops in
-  let (_, souts) = lref_run [] ops in
-  List.iteri (fun i (r, _) ->
-    if i > 0 then sep sk ' ';
-    match r with
-    | RUnit -> res sk 'u' (-1) (-1)
-    | RErr -> res sk '!' (-1) (-1)
-    | RBool b -> res sk 'b' (if b then 1 else 0) (-1)
-    | RVal v -> res sk 'v' (int_of_nat v) (-1)
-    | RSize z -> res sk 's' (int_of_nat z) (-1)
-    | RPop (k, v) -> res sk 'p' (int_of_nat k) (int_of_nat v)
-    | RPre -> res sk '?' (-1) (-1)) outs;
-  sep sk '|';
-  List.iteri (fun i (k, v) -> kv sk (int_of_nat k) (int_of_nat v) (i = 0)) (List.rev s.lst);
-  sep sk '|';
-  word sk (if s.bad then "MODELBAD" else "ok");
-  (valid, (if valid && outs <> souts then " MODEL-DIFFERS-FROM-SPEC" else ""))
+(* A token is one harness call.  Two tokens are compound on the model side:
+     PG,k,j  = put(k, get(j))           -> model history  [LGet j; LPut k v]  (no put when get throws)
+     EN,k    = n = find(k); erase(n)    -> model history  [SFind k; SErase k] (no erase when the found key is not k)
+   so the run is done token by token on the extracted lrun / srun (both take the start state). *)
+let lru_show sk i r =
+  if i > 0 then sep sk ' ';
+  match r with
+  | RUnit -> res sk 'u' (-1) (-1)
+  | RErr -> res sk '!' (-1) (-1)
+  | RBool b -> res sk 'b' (if b then 1 else 0) (-1)
+  | RVal v -> res sk 'v' (int_of_nat v) (-1)
+  | RSize z -> res sk 's' (int_of_nat z) (-1)
+  | RPop (k, v) -> res sk 'p' (int_of_nat k) (int_of_nat v)
+  | RPre -> res sk '?' (-1) (-1)
 
-let run_splay dup ops sk =
-  let (s, outs) = srun dup st_init ops in
-  let (_, routs) = rrun dup [] ops in
-  List.iteri (fun i ((r, z), ks) ->
+let lstep1 s o = match lrun s [o] with (s1, [(r, _)]) -> (s1, r) | _ -> failwith "lrun"
+let rstep1 l o = match lref_run l [o] with (l1, [(r, _)]) -> (l1, r) | _ -> failwith "lref_run"
+
+(* returns (valid, note) *)
+let run_lru ismap toks sk =
+  let s = ref lru_init and l = ref [] and valid = ref true and differs = ref false in
+  List.iteri (fun i tok ->
+    let (r, rr) =
+      match split ',' tok with
+      | ["PG"; k; j] ->
+        let (s1, g) = lstep1 !s (LGet (n j)) and (l1, g') = rstep1 !l (LGet (n j)) in
+        s := s1; l := l1;
+        let put st step v = let (st1, _) = step st (LPut (n k, v)) in st1 in
+        ((match g with RVal v -> s := put !s lstep1 v; RUnit | x -> x),
+         (match g' with RVal v -> l := put !l rstep1 v; RUnit | x -> x))
+      | _ ->
+        let o = lru_op ismap tok in
+        if not (lvalid !l [o]) then valid := false;
+        let (s1, r) = lstep1 !s o and (l1, rr) = rstep1 !l o in
+        s := s1; l := l1; (r, rr) in
+    if r <> rr || !s.lst <> !l then differs := true;
+    lru_show sk i r) toks;
+  sep sk '|';
+  List.iteri (fun i (k, v) -> kv sk (int_of_nat k) (int_of_nat v) (i = 0)) (List.rev !s.lst);
+  sep sk '|';
+  word sk (if !s.bad then "MODELBAD" else "ok");
+  (!valid, (if !valid && !differs then " MODEL-DIFFERS-FROM-SPEC" else ""))
+
+let sstep1 dup s o = match srun dup s [o] with (s1, [out]) -> (s1, out) | _ -> failwith "srun"
+let rrun1 dup l o = match rrun dup l [o] with (l1, [out]) -> (l1, out) | _ -> failwith "rrun"
+
+let run_splay dup toks sk =
+  let s = ref st_init and l = ref [] and differs = ref false in
+  List.iteri (fun i tok ->
     if i > 0 then sep sk ' ';
+    let ((r, z), ks) =
+      match split ',' tok with
+      | ["EN"; k] ->
+        let (s1, ((f, z1), ks1)) = sstep1 dup !s (SFind (n k)) and (l1, _) = rrun1 dup !l (SFind (n k)) in
+        s := s1; l := l1;
+        (match f with
+         | SFound (Some x) when x = n k ->
+           let (s2, out) = sstep1 dup !s (SErase (n k)) and (l2, rout) = rrun1 dup !l (SErase (n k)) in
+           s := s2; l := l2;
+           if abs_out [SErase (n k)] [out] <> [rout] then differs := true;
+           out
+         | _ -> if List.mem (n k) !l then differs := true; ((SBool false, z1), ks1))
+      | _ ->
+        let o = splay_op tok in
+        let (s1, out) = sstep1 dup !s o and (l1, rout) = rrun1 dup !l o in
+        s := s1; l := l1;
+        if abs_out [o] [out] <> [rout] then differs := true;
+        out in
     (match r with
      | SBool b -> res sk 'b' (if b then 1 else 0) (-1)
      | SFound None -> res sk 'f' (-1) (-1); sep sk '-'
@@ -86,20 +128,24 @@ let run_splay dup ops sk =
      | SKeys _ -> res sk 't' (-1) (-1));
     sep sk '/'; num sk (int_of_nat z); if sk.text then Buffer.add_string sk.b (string_of_int (int_of_nat z));
     sep sk '/';
-    List.iteri (fun j k -> key sk (int_of_nat k) (j = 0)) ks) outs;
+    List.iteri (fun j k -> key sk (int_of_nat k) (j = 0)) ks) toks;
   sep sk '|';
-  word sk (if ledger_ok (destroy s) then "ok" else "bad");
-  (true, (if abs_out ops outs <> routs then " MODEL-DIFFERS-FROM-SPEC" else ""))
+  word sk (if ledger_ok (destroy !s) then "ok" else "bad");
+  (true, (if !differs then " MODEL-DIFFERS-FROM-SPEC" else ""))
 
-let run_kind kind toks sk =
-  match kind with
-  | "lrumap" -> run_lru (List.map (lru_op true) toks) sk
-  | "lruset" -> run_lru (List.map (lru_op false) toks) sk
-  | "splayset" -> run_splay false (List.map splay_op toks) sk
-  | "splaymulti" -> run_splay true (List.map splay_op toks) sk
+(* kind[:variant] -- the variant only selects the C++ instantiation; the model is the same *)
+let base_kind kindv = List.hd (split ':' kindv)
+
+let run_kind kindv toks sk =
+  match base_kind kindv with
+  | "lrumap" -> run_lru true toks sk
+  | "lruset" -> run_lru false toks sk
+  | "splayset" -> run_splay false toks sk
+  | "splaymulti" -> run_splay true toks sk
   | _ -> word sk "?"; (true, "")
 
-let alphabet kind nk =
+let alphabet kindv nk =
+  let kind = base_kind kindv in
   let ks = List.init nk string_of_int in
   let with_keys nm = List.map (fun k -> nm ^ "," ^ k) ks in
   match kind with
